@@ -91,6 +91,8 @@ func init() {
 			"Permutation testing is replaced by the order-independence argument (O5) plus last-writer-wins by range order (O4).",
 		Assumptions: []string{"option constructors are the exported functions returning util.Option", "specification tables in checker/rule_c19.go encode 'the setting it names'"},
 		Mutants: []Mutant{
+			{ID: "C19-shared-ssh-args", Desc: "NewSSHArgs hands out one package-level SSHArgs", Rule: "C19/fresh-objects",
+				Edits: []Edit{{File: "transport/transport.go", Old: "\ta := &SSHArgs{\n\t\tStrictKey: defaultSSHStrictKey,\n\t}\n", New: "\ta := &sharedSSHArgs\n"}, {File: "transport/transport.go", Old: "// NewSSHArgs returns an instance of SSH arguments", New: "var sharedSSHArgs = SSHArgs{StrictKey: defaultSSHStrictKey} //nolint:gochecknoglobals\n\n// NewSSHArgs returns an instance of SSH arguments"}}},
 			{ID: "C19-transport-type-checked-lowercase", Desc: "WithTransportType validates the lower-cased name but stores the original", Rule: "C19/validated-is-stored",
 				Edits: []Edit{{File: "driver/options/generic.go", Old: "\t\tswitch transportType {", New: "\t\tswitch strings.ToLower(transportType) {"}, {File: "driver/options/generic.go", Old: "import (\n\t\"fmt\"\n", New: "import (\n\t\"fmt\"\n\t\"strings\"\n"}}},
 			{ID: "C19-wrong-field", Desc: "WithTermWidth stores TermHeight", Rule: "C19/O3",
@@ -124,6 +126,8 @@ func runC19(c *Ctx, r *Report) {
 	r.Rule("C19/O1O2", "ignored sentinel only on the non-matching path and never after a store; no success without the store; stores only into the asserted target", 45)
 	r.Rule("C19/O3", "each option stores exactly the setting the specification names, taking the value from its own parameter or constant", 45)
 	r.Rule("C19/O4", "every constructor applies the full option list, in order, to every target type, skipping only the ignored sentinel", 10)
+	r.Rule("C19/fresh-objects", "every exported New* constructor of the library hands out an object allocated by that call: settings applied to one driver / transport / channel / operation never show up in another", 15)
+	checkFreshConstructors(c, r, "C19/fresh-objects", nil, "the object is shared between callers, so a setting applied through one of them is in force for all the others")
 	r.Rule("C19/validated-is-stored", "an option that checks its argument against a list of valid values stores the very value it checked", 2)
 	checkValidatedIsStored(c, r, "C19/validated-is-stored")
 	r.Rule("C19/O5", "options do not read other settings; platform constructor passes platform options first and user options after", 1)
